@@ -1,4 +1,4 @@
-import CallbagModel.Core
+import CallbagModel.EnvX
 /-!
 # Environment scripts: text protocol, enumeration of conformant scripts, replay on a machine
 
@@ -44,7 +44,7 @@ def settle {St Loc α β} (M : Machine St Loc α β) (s : Sys St Loc α β) : Sy
 /-- replay a script; `none` if some move is not legal where it stands -/
 def runMoves {St Loc α β} (M : Machine St Loc α β) : Sys St Loc α β → List (Move α) → Option (Sys St Loc α β)
   | s, [] => some s
-  | s, m :: ms => match envMove M s m with
+  | s, m :: ms => match envMoveX M s m with
     | none => none
     | some s1 => runMoves M (settle M s1) ms
 
@@ -71,7 +71,7 @@ def noFilter {β} : MoveFilter β := fun _ _ => true
 def legalMoves {St Loc β} (M : Machine St Loc Int β) (nSinks : Nat) (s : Sys St Loc Int β) (R : MoveFilter β := noFilter) :
     List (Move Int × Sys St Loc Int β) :=
   ((candMoves M.shape s.g.ph nSinks (dataSent s.tr + 1)).filter (R s.tr)).filterMap fun m =>
-    match envMove M s m with
+    match envMoveX M s m with
     | some s1 => some (m, settle M s1)
     | none => none
 
